@@ -434,6 +434,43 @@ func runC02(c *mon.Ctx) {
 		op := r.IntN(12)
 		desc := ""
 		switch {
+		case op >= 10 && r.IntN(3) == 0:
+			// the tables that say how many glyphs there are disagree or are
+			// missing: maxp removed or its count off by one, hmtx longer or
+			// shorter than the glyph count, numberOfHMetrics changed
+			desc = "glyph counts:"
+			if r.IntN(2) == 0 {
+				delete(tabs, "maxp")
+				desc += " maxp removed"
+			} else if mp := tabs["maxp"]; len(mp) >= 6 {
+				mp = append([]byte(nil), mp...)
+				n := int(mp[4])<<8 | int(mp[5])
+				n += []int{1, -1, 2, 255}[r.IntN(4)]
+				mp[4], mp[5] = byte(n>>8), byte(n)
+				tabs["maxp"] = mp
+				desc += " maxp.numGlyphs changed"
+			}
+			if hm := tabs["hmtx"]; hm != nil {
+				switch r.IntN(3) {
+				case 0:
+					tabs["hmtx"] = append(append([]byte(nil), hm...), make([]byte, 2*(1+r.IntN(32)))...)
+					desc += ", hmtx padded"
+				case 1:
+					if len(hm) > 4 {
+						tabs["hmtx"] = hm[:len(hm)-2*(1+r.IntN(min(len(hm)/2-1, 8)))]
+						desc += ", hmtx shortened"
+					}
+				}
+			}
+			if hh := tabs["hhea"]; len(hh) >= 36 && r.IntN(3) == 0 {
+				hh = append([]byte(nil), hh...)
+				n := int(hh[34])<<8 | int(hh[35])
+				n += []int{1, -1, 100}[r.IntN(3)]
+				hh[34], hh[35] = byte(n>>8), byte(n)
+				tabs["hhea"] = hh
+				desc += ", hhea.numberOfHMetrics changed"
+			}
+			k.Class("fonts:cross-table:glyph-counts")
 		case op >= 10:
 			// every table valid on its own, but inconsistent with the others at
 			// an exact boundary: a character map whose glyph ids are the number
@@ -573,7 +610,7 @@ func runC02(c *mon.Ctx) {
 		"acc:glyf.Decode>SimpleGlyph.Decode", "acc:glyf.Decode>Glyphs.Encode",
 		"acc:gtab.Read(GSUB)>Encode", "acc:gtab.Read(GPOS)>Encode", "acc:gdef.Read>Encode", "acc:cff.Read>Write",
 		"fonts:cff-in-sfnt:accepted", "font:glyf", "font:cff", "font:cff-cid", "cff:cid-keyed", "cff:simple",
-		"truncate:exhaustive", "truncate:sampled", "fieldsweep:seeds", "fonts:cross-table:cmap-vs-glyph-count", "charstrings:catalog", "charstrings:accepted", "charstrings:rejected")
+		"truncate:exhaustive", "truncate:sampled", "fieldsweep:seeds", "fonts:cross-table:cmap-vs-glyph-count", "fonts:cross-table:glyph-counts", "charstrings:catalog", "charstrings:accepted", "charstrings:rejected")
 	for _, a := range c02amps {
 		c.Require("amplifier:" + a.name)
 	}
